@@ -26,6 +26,11 @@ type SpecData struct {
 	// GetPaths: configuration paths to read through App.Get after Run.
 	GetPaths []string `json:"getPaths,omitempty"`
 	Parallel bool     `json:"parallel,omitempty"`
+	// Free (parallel mode only): nothing parks; goroutines started by the container run as the
+	// Go scheduler pleases. Parking orders every goroutine's work after the loop that started
+	// it (quiescence is a synchronisation point), which hides races between that loop and
+	// its goroutines from the race detector.
+	Free bool `json:"free,omitempty"`
 }
 
 // Case is a replayable unit: one program, the runs to perform on it and the property to
